@@ -391,8 +391,16 @@ def throw_catalogue():
     # recovery expression throws l - which the inner operator lists although no throw of l is written inside it
     g("escalate", [rule("S", act(label("x", recover(recover(seq(lit("a"), choice(lit("b"), throw("l2"))), ["l1"], act(lit("r"), rec("inner"))),
                                                     ["l2"], seq(lit("g"), choice(lit("b"), throw("l1"))))), rec("s")))])
+    # a labelled recovery operator whose guarded / recovery operand binds, directly (no choice, rule or predicate in
+    # between), a label of the same name as an earlier label of the enclosing sequence: the labelled expression has a
+    # scope of its own, the outer label keeps its value for the outer block
+    g("lblshadow", [rule("S", act(seq(label("n", cls(ranges=[("a", "b")])), label("t", recover(act(seq(label("n", cls(ranges=[("c", "d")])), choice(lit("e"), throw("l1"))), rec("inner")),
+                                                                                                 ["l1"], act(label("q", any_()), rec("r"))))), rec("s")))])
+    g("lblshadow2", [rule("S", act(seq(label("n", lit("a")), label("t", recover(seq(label("n", lit("b")), label("m", opt(lit("c")))), ["l1"], lit("z"))), label("m", opt(any_()))), rec("s")))])
+    # a failure label listed twice in one operator (accepted by the front end; it is a set)
+    g("duplist", [rule("S", act(label("x", recover(seq(lit("a"), choice(lit("b"), throw("l1")), choice(lit("c"), throw("l2"))), ["l1", "l2", "l1"], act(any_(), rec("r")))), rec("s")))])
     # throw under choice alternatives with state of labels
-    g("labels", [rule("S", act(seq(label("x", lit("a")), label("y", recover(choice(lit("b"), throw("l1")), ["l1"], act(label("z", any_()), rec("r"))))), rec("s")))])
+    g("labels",[rule("S", act(seq(label("x", lit("a")), label("y", recover(choice(lit("b"), throw("l1")), ["l1"], act(label("z", any_()), rec("r"))))), rec("s")))])
     return out
 
 
@@ -698,6 +706,13 @@ def cyclic_catalogue():
     g("recthrow", [top(), rule("A", recover(seq(ref("H"), lit("z")), ["l1"], ref("F"))), rule("H", choice(lit("b"), throw("l1"))),
                    rule("F", choice(seq(ref("A"), lit("q")), lit("f")))])
     g("choicepredn", [top(), rule("A", choice(not_(lit("x")), seq(ref("N"), ref("A"), lit("y")))), rule("N", opt(lit("n")))])
+    # a rule name defined twice (the front end does not object; the later definition is the one the rule table of the
+    # parser holds): one of the two definitions is left-recursive. Whatever the tool does with the pair - reject it, or
+    # accept it and run the non-recursive definition - a parser that re-enters A at one position is the silent
+    # acceptance C07 excludes. (No code blocks in A: two definitions with blocks do not compile, finding F22.)
+    g("dupfirst", [top(), rule("A", choice(seq(ref("A"), lit("x")), lit("y"))), rule("A", seq(lit("y"), star(lit("x"))))])
+    g("duplast", [top(), rule("A", seq(lit("y"), star(lit("x")))), rule("A", choice(seq(ref("A"), lit("x")), lit("y")))])
+    g("dupstart", [rule("S", choice(seq(ref("S"), lit("x")), lit("y"))), rule("S", seq(lit("y"), star(lit("x"))))])
     # the throw sits in another rule than the handler: H throws, the handler in A runs F, F calls H again at the same position
     g("throwcross", [top(), rule("A", recover(ref("H"), ["l1"], ref("F"))), rule("H", choice(lit("b"), throw("l1"))),
                      rule("F", seq(ref("H"), lit("x")))])
